@@ -7,7 +7,8 @@
    (ArchSpec.v) is the declarative content of a loaded sequence; prior_independent el dflt Q P: the
    element loader ignores the previous element value for targets in Q and documents in P;
    prior_independent_when_loaded: the weaker form (value compared only when loaded).  load / wt / all_load / has_unloaded: the type universe of part 1b. *)
-From BS Require Import Base ArchSpec ArchModel ArchLemmas ArchProofs.
+From BS Require Import Base ArchSpec ArchModel ArchLemmas ArchProofs ArchValidation ArchXml.
+From BS Require ArchCodec.      (* qualified: its parsing notations (msg, fl) would capture variable names used here *)
 
 (* SerializeContainer (vector, deque, list, queue, stack, priority_queue) over a move-assignable
    element type: for ANY prior content and ANY estimate the result is the one of a fresh target,
@@ -186,3 +187,65 @@ Example T_C18_example_map_modes :
   load_map_mode json_arch default_pols Clean KInt TInt [(1, 2); (7, 7)]%Z doc = Ok ([(2, 5); (1, 9)]%Z, true).
 Proof. exact ex_map_modes. Qed.
 Print Assumptions T_C18_example_map_modes.
+
+(* ------------------------------------------------------------------------------------------------------------ *)
+(* The XML archive (pugixml): xml_arch (ArchModel.v).  T_C18_all_types_refuted / _outside and the container
+   theorems above are stated for every archive flavour; spelled out for XML: *)
+Theorem T_C18_xml_all_types_outside : forall pl t p d,
+  wt t p = true -> has_unloaded xml_arch pl t d = false -> load xml_arch pl t p d = load xml_arch pl t (tdefault t) d.
+Proof. exact (fun pl => T_C18_all_types_outside xml_arch pl). Qed.
+Print Assumptions T_C18_xml_all_types_outside.
+
+(* what is left of F36 exists in XML exactly as in the other archives *)
+Example T_C18_xml_example_stale :
+  load xml_arch default_pols (TArr 3 TInt) [7; 8; 9]%Z (DArr 3 [DNull; DInt 2; DNull]) = Ok ([7; 2; 9]%Z, true) /\
+  load xml_arch default_pols (TArr 3 TInt) [0; 0; 0]%Z (DArr 3 [DNull; DInt 2; DNull]) = Ok ([0; 2; 0]%Z, true) /\
+  has_unloaded xml_arch default_pols (TArr 3 TInt) (DArr 3 [DNull; DInt 2; DNull]) = true.
+Proof. exact xml_stale_witness. Qed.
+Print Assumptions T_C18_xml_example_stale.
+
+(* What is different for XML.  (1) A child-less element is an EMPTY container, not "null": for every sequence kind,
+   element type, policy and prior content the target ends empty and counts as loaded, and the document is outside the
+   defect class; in JSON the same document leaves the target as it was (the F36c class) *)
+Theorem T_C18_xml_childless_is_empty : forall pl k t' kt p (q : list (tkey kt * tval t')),
+  load xml_arch pl (TSeq k t') p DNull = Ok ([], true) /\
+  load xml_arch pl (TMap kt t') q DNull = Ok ([], true) /\
+  has_unloaded xml_arch pl (TSeq k t') DNull = false /\
+  load json_arch pl (TSeq k t') p DNull = Ok (p, false) /\
+  has_unloaded json_arch pl (TSeq k t') DNull = true.
+Proof.
+  intros. split; [|split; [|split; [|split]]].
+  - apply xml_childless_empties_sequence.
+  - apply xml_childless_empties_map.
+  - apply xml_childless_not_in_defect_class.
+  - apply json_null_keeps_sequence.
+  - apply xml_childless_not_in_defect_class.
+Qed.
+Print Assumptions T_C18_xml_childless_is_empty.
+
+(* (2) scalars are untyped text: a number loads into a string as its decimal text, "true" is not a number, the
+   empty string and an element with children are "not loaded" for every scalar target *)
+Theorem T_C18_xml_text_scalars : forall pl (p : Z) (q : str) z b est l ms,
+  load xml_arch pl TStr q (DInt z) = Ok (dec_Z z, true) /\
+  load json_arch pl TStr q (DInt z) = on_mismatch pl (q, false) /\
+  load xml_arch pl TInt p (DBool b) = on_mismatch pl (p, false) /\
+  load xml_arch pl TStr q (DStr []) = Ok (q, false) /\
+  load xml_arch pl TInt p (DArr est l) = Ok (p, false) /\
+  load xml_arch pl TStr q (DMap ms) = Ok (q, false).
+Proof.
+  intros. split; [|split; [|split; [|split; [|split]]]].
+  - apply xml_number_into_string.
+  - apply json_number_into_string.
+  - apply xml_bool_into_int.
+  - apply xml_empty_string_not_loaded.
+  - apply (xml_scope_into_scalar_not_loaded pl p q est l ms).
+  - apply (xml_scope_into_scalar_not_loaded pl p q est l ms).
+Qed.
+Print Assumptions T_C18_xml_text_scalars.
+
+(* (3) arrays and objects are the same thing: members are items and items are members, named by the encoder *)
+Example T_C18_xml_object_as_array : forall pl,
+  load xml_arch pl (TSeq SVector TInt) [7; 8; 9]%Z (DMap [(DKStr [97]%N, DInt 1); (DKStr [98]%N, DInt 2)]) = Ok ([1; 2]%Z, true) /\
+  load xml_arch pl (TMap KStr TInt) [] (DArr 2 [DInt 5; DArr 0 []]) = Ok ([(xml_names.(tn_value), 5%Z); (xml_names.(tn_array), 0%Z)], true).
+Proof. exact xml_object_as_array. Qed.
+Print Assumptions T_C18_xml_object_as_array.
